@@ -31,7 +31,7 @@ RULE = ('cases: random supports on shapes 2..7, partitions into 1..5 segments (r
 TRUSTED = ['NumPy slicing/broadcasting in Plane.multiply and util.boundary (modelled by hand in Model/Plane.lean)',
            'np.dot / einsum in fourier.dft2 compute the sums of products (Model/Fourier.lean; C01 checks dft2 itself)',
            'np.exp(1j*t) = cos t + i sin t']
-UNPROVEN = ['propagate_linear (additivity of propagate_dft in the embedded field, through dft2 with per-field offset) has no theorem yet: the propagation step is covered by the correspondence (model dft2 at Float) and by the oracle on the real code',
+UNPROVEN = [
             'that boundary_slice returns a slice covering the mask support is a hypothesis (Seg.covers); the hand model bboxSlice is tied by correspondence only',
             'partitions containing a segment (or producing an intermediate field) with exactly one element (known finding KF-C03-one-pixel-segment)',
             'propagation with fitted tilt or an output mask is outside this model (C04, C02)']
